@@ -20,3 +20,4 @@ func vDocEqual(a, b *types.DIDDocument) bool                       { return fals
 func vDocSeqEqual(a, b types.DIDDocumentWithSeq) bool              { return false }
 func vB64(s string) string                                         { return "" }
 func vPickKey(second bool, a, b vKey) vKey                         { return a }
+func vSignBytes(k vKey, msg []byte) []byte                          { return nil }
